@@ -343,6 +343,8 @@ class ReadOne3d(Obligation):
     def __init__(self, nz, T, rows, cols, step=100, fmt='one3d'):
         self.nz, self.T, self.rows, self.cols = nz, T, rows, cols
         self.step, self.fmt = step, fmt
+        # long files: one decision per record visited while scanning
+        self.max_decisions = max(self.max_decisions, 400 * T)
         self.name = 'read-%s[nz=%d,T=%d,rows=%d,cols=%d,step=%d]' % (
             fmt, nz, T, rows, cols, step)
         self.bounds = {'nz': nz, 'T': T, 'rows': rows, 'cols': cols,
